@@ -5,7 +5,7 @@
 p=$1; shift
 export PYVC_OUT=/var/tmp/pyvc_selftest.$$
 mkdir -p $PYVC_OUT
-cd /repo && { git apply "$p" 2>/dev/null || patch -p1 -F3 -s --no-backup-if-mismatch < "$p"; } || { echo "PATCH DID NOT APPLY"; git checkout -- .; rm -rf $PYVC_OUT; exit 2; }
+cd /repo && { git apply "$p" 2>/dev/null || patch -p1 -F3 -s --no-backup-if-mismatch < "$p"; } || { echo "PATCH DID NOT APPLY"; git checkout -- .; git clean -fdq -- . ; rm -rf $PYVC_OUT; exit 2; }
 (cd /verif && timeout 900 ./check "$@" 2>&1 | grep -v conda | cut -c1-260 > /var/tmp/seed_run.$$; head -1 /var/tmp/seed_run.$$; grep -E "^(VIOLATION|KNOWN)" /var/tmp/seed_run.$$ | head -6; grep -vE "^(VIOLATION|KNOWN|  cross-check|  locked)" /var/tmp/seed_run.$$ | tail -n +2 | head -${MUT_LINES:-5}; rm -f /var/tmp/seed_run.$$)
 rm -rf $PYVC_OUT
-cd /repo && git checkout -- . && git status --short | head -3
+cd /repo && git checkout -- . && git clean -fdq -- . && git status --short | head -3
